@@ -63,10 +63,22 @@ func installCsvStubs(header []string, evs []csvEvent) {
 		pos = 0
 	}
 	vrt.Stub("encoding/csv.NewReader", func(r io.Reader) *csv.Reader { return new(csv.Reader) })
+	// encoding/csv's documented field-count contract: FieldsPerRecord > 0 requires
+	// that many fields per record, 0 takes the first record's count, < 0 checks nothing;
+	// a record of another width is returned together with ErrFieldCount.
+	checkWidth := func(r *csv.Reader, rec []string) ([]string, error) {
+		if r.FieldsPerRecord == 0 {
+			r.FieldsPerRecord = len(rec)
+		}
+		if r.FieldsPerRecord > 0 && len(rec) != r.FieldsPerRecord {
+			return rec, errors.New("record on line: wrong number of fields")
+		}
+		return rec, nil
+	}
 	vrt.Stub("(*encoding/csv.Reader).Read", func(r *csv.Reader) ([]string, error) {
 		if pos == -1 {
 			pos = 0
-			return append([]string(nil), header...), nil
+			return checkWidth(r, append([]string(nil), header...))
 		}
 		if pos >= len(evs) {
 			return nil, io.EOF
@@ -76,7 +88,7 @@ func installCsvStubs(header []string, evs []csvEvent) {
 		if e.fields == nil {
 			return nil, errors.New("parse error")
 		}
-		return append([]string(nil), e.fields...), nil
+		return checkWidth(r, append([]string(nil), e.fields...))
 	})
 	// value conversion: "bad" does not convert (an int column natively), everything else does
 	vrt.Stub("github.com/cinar/indicator/v2/helper.setReflectValue", func(v any, s string, format string) error {
@@ -103,7 +115,8 @@ func runCsv[T any](hasHeader bool, text string) int {
 // extra column; nrec records of nf fields each (nf may be smaller or larger than
 // the struct); the kind of every record is a nondeterministic stub outcome
 // (symbolic, explored by forking): 0 good record, 1 record with an unconvertible
-// value in the int column, 2 parse error.
+// value in the int column, 2 parse error, 3 truncated record (fewer fields than the
+// first record; how many is another outcome), 4 record with one field too many.
 func H_C19_Csv(shape, hdr, nrec, nf int) {
 	names := [][]string{nil, {"A"}, {"A", "N"}, {"A", "N", "Bee"}}[shape]
 	var header []string
@@ -141,9 +154,25 @@ func H_C19_Csv(shape, hdr, nrec, nf int) {
 	good := 0
 	stopped := false
 	for r := 0; r < nrec; r++ {
-		kind := vrt.Choice("kind", 3, r)
+		kind := vrt.Choice("kind", 5, r)
 		if kind == 2 {
 			evs = append(evs, csvEvent{})
+			stopped = true
+			continue
+		}
+		if kind >= 3 {
+			// wrong field count; the first record of a header-less file DEFINES the count
+			vrt.Assume(header != nil || r > 0)
+			w := width + 1
+			if kind == 3 {
+				vrt.Assume(width >= 2)
+				w = 1 + vrt.Choice("tw", width-1, r) // 1..width-1 fields (an empty line is skipped by the parser)
+			}
+			f := make([]string, w)
+			for i := range f {
+				f[i] = "7"
+			}
+			evs = append(evs, csvEvent{fields: f})
 			stopped = true
 			continue
 		}
@@ -290,12 +319,14 @@ func (b fakeBody) Read(p []byte) (int, error) { return 0, io.EOF }
 func (b fakeBody) Close() error               { *b.closed = true; return nil }
 
 // H_C19_Tiingo: GetSince against an HTTP endpoint whose behaviour is a
-// nondeterministic stub outcome: transport (0 ok, 1 failure), status (0: 200,
-// 1: 404, 2: 500), then a JSON body of nvals records each of which decodes or
+// nondeterministic stub outcome: transport (0 ok, 1 failure), ANY status code in
+// 200..599 (a symbolic integer), then a JSON body of nvals records each of which decodes or
 // not, with an arbitrary opening / closing token outcome.
 func H_C19_Tiingo(nvals int) {
 	transport := vrt.Choice("transport", 2)
-	status := vrt.Choice("status", 3)
+	code := vrt.Int("code")
+	vrt.Assume(code >= 200)
+	vrt.Assume(code <= 599)
 	p := jsonPlan{open: vrt.Choice("open", 3), close: vrt.Choice("close", 3)}
 	good := 0
 	stopped := p.open == 2 // GetSince only needs the first token to be readable
@@ -309,7 +340,6 @@ func H_C19_Tiingo(nvals int) {
 			good++
 		}
 	}
-	code := []int{200, 404, 500}[status]
 	repo := asset.NewTiingoRepository("key")
 	closed := false
 	if vrt.Symbolic() {
@@ -383,8 +413,10 @@ func H_C19_Tiingo(nvals int) {
 	c, err := repo.GetSince("aapl", vrt.Day(100))
 	if transport == 1 {
 		vrt.Assert("transport_failure_is_an_error", err != nil)
-	} else if code != 200 {
+	} else if code < 200 || code > 299 {
 		vrt.Assert("non_success_status_is_an_error", err != nil)
+	} else if code != 200 && err != nil {
+		// another 2xx status treated as a failure: stricter than required
 	} else {
 		vrt.Assert("ok_no_error", err == nil)
 		n := 0
